@@ -145,6 +145,40 @@ def impl(case):
             "dtype": str(rr.data[:].dtype)}
 
 
+_COUNT = {"n": 0, "wrapped": False}
+
+
+def impl_counted(case):
+    """same as impl, with every `_partial` / `_remaining` kernel invocation counted (module attributes wrapped from outside)"""
+    e = _env()
+    ops = e["ops"]
+    if not _COUNT["wrapped"]:
+        for name in dir(ops):
+            if name.startswith("generate_ordered_map_to_") and (name.endswith("_partial") or name.endswith("_remaining")):
+                fn = getattr(ops, name)
+
+                def wrap(fn):
+                    def w(*a, **k):
+                        _COUNT["n"] += 1
+                        return fn(*a, **k)
+                    return w
+                setattr(ops, name, wrap(fn))
+        _COUNT["wrapped"] = True
+    _COUNT["n"] = 0
+    out = impl(case)
+    out["calls"] = _COUNT["n"]
+    return out
+
+
+def is_streamed(case):
+    return True
+
+
+def step_bound(case, io):
+    out = len(io["r"]) if "r" in io else 0
+    return 2 * (len(case["left"]) + len(case["right"]) + 2 * max(out, len(case["left"])) + 1)
+
+
 # ------------------------------------------------------------------------------------------------------------------
 # the property's oracle: relational join (Python rendering of Spec/Join.lean)
 # ------------------------------------------------------------------------------------------------------------------
